@@ -245,6 +245,61 @@ def run_c06(case):
             raise Violation("a closed breaker stays closed and lets calls through", obs)
 
 
+def run_c07(case):
+    """C07 on direct breaker operations (bounded stand-in, used when the deductive check of C07 is undecided on a tree): the same
+    histories as C06, judged where C06's oracle only follows the library - in OPEN and HALF_OPEN - plus "a successful probe closes the
+    circuit with an empty failure history": from that moment a FRESH library breaker with the same configuration is driven alongside and
+    must agree (state and return value) until the next opening, so that what "empty history" means does not depend on C06's model."""
+    cfg, clk, EC = case["cfg"], Clock(0.0), R.ErrorClass
+    kw = {k: cfg[k] for k in ("failure_threshold", "window_s", "recovery_timeout_s")}
+    if cfg.get("trip_on") is not None:
+        kw["trip_on"] = {EC[c] for c in cfg["trip_on"]}
+    if cfg.get("class_thresholds"):
+        kw["class_thresholds"] = {EC[c]: n for c, n in cfg["class_thresholds"].items()}
+    b, m, twin = R.CircuitBreaker(clock=clk, **kw), BreakerModel(cfg), None
+
+    def op(brk, st):
+        return lib({"fail": lambda: brk.record_failure(EC[st[1]]), "ok": brk.record_success, "cancel": brk.record_cancel,
+                    "allow": brk.allow}[st[0]])
+    for i, st in enumerate(case["steps"]):
+        if st[0] == "to":
+            clk.t = max(clk.t, st[1])
+            continue
+        before, probe_before, opened_before = m.state, m.probe, m.opened_at
+        how, ret = op(b, st)
+        tw = op(twin, st) if twin is not None else None
+        m.step(st, clk.t)
+        got = b.state.value
+        obs = {"step": i, "op": st, "t": clk.t, "returned": show(ret), "state": got, "state_before": before}
+        if how == "raise":
+            raise Violation("breaker operations are defined for every history (no exception)", dict(obs, raised=ret))
+        if before == "closed":
+            if twin is not None:
+                if tw[0] == "raise" or twin.state.value != got or show(tw[1]) != show(ret):
+                    raise Violation("a successful probe closes the circuit with an empty failure history (afterwards the breaker must behave "
+                                    "like a fresh one)", dict(obs, fresh_breaker_state=twin.state.value, fresh_breaker_returned=show(tw[1])))
+                if got != "closed":
+                    twin = None
+            if got != m.state:            # C06 matter: follow the library
+                m.to(got, clk.t)
+            continue
+        twin = None
+        if st[0] == "allow":
+            exp = (clk.t - opened_before >= m.rec) if before == "open" else not probe_before
+            if bool(getattr(ret, "allowed", None)) != exp:
+                raise Violation("an open breaker rejects every call until recovery_timeout_s has elapsed, then admits exactly one probe; all "
+                                "others are rejected until its result is recorded", dict(obs, expected_allowed=exp, opened_at=opened_before))
+        if got != m.state:
+            raise Violation("while open nothing but the probe admission changes the state; a successful probe closes the circuit, a failed "
+                            "probe re-opens it with a fresh timeout", dict(obs, expected_state=m.state))
+        if before == "half_open" and st[0] == "ok":
+            twin = R.CircuitBreaker(clock=clk, **kw)
+
+
+def battery_c07():
+    return battery_c06()
+
+
 def c06_case(thr, w, rec, trip, cthr, steps):
     return {"cfg": {"failure_threshold": thr, "window_s": w, "recovery_timeout_s": rec, "trip_on": trip,
                     "class_thresholds": cthr}, "steps": steps}
@@ -1077,7 +1132,7 @@ def gen_c20(rng, n):
 
 
 # =====================================================================================================
-PROPS = {"C06": (battery_c06, gen_c06, run_c06), "C10": (battery_c10, gen_c10, run_c10), "C18": (battery_c18, gen_c18, run_c18),
+PROPS = {"C06": (battery_c06, gen_c06, run_c06), "C07": (battery_c07, gen_c06, run_c07), "C10": (battery_c10, gen_c10, run_c10), "C18": (battery_c18, gen_c18, run_c18),
          "C19": (battery_c19, gen_c19, run_c19), "C20": (battery_c20, gen_c20, run_c20)}
 
 
